@@ -804,11 +804,28 @@ def c12(tier):
     kw = dict(kind="h", nkeys=2, nvals=1, maxcalls=2, maxops=1 if not thorough else 2, maxcrash=1, fine=True,
               feat=("power",), view="ViewNoTrace", invariants=POWER_INV)
     run_model(rep, pdb_cfg(**kw), "MC_C12(h,2 keys,2 calls,power loss)", timeout=3400)
-    if thorough:
-        run_model(rep, pdb_cfg(**dict(kw, kind="hr", nkeys=1, maxops=2, maxcrash=2, feat=("power", "crashrec"))),
-                  "MC_C12(hr,power loss x2 incl. during recovery)", timeout=3400)
     for mut in ("enact_unsynced", "trunc_unflushed"):
         run_model(rep, pdb_cfg(**dict(kw, maxops=1, mut=(mut,))), "MC_C12_noguard_" + mut, expect=True)
+    # power loss during the recovery that follows a process crash (the log may hold records that were written
+    # but never synced): replay syncs each file first (repair 7156d81, F21); necessity config without it
+    kw2 = dict(kw, kind="hr", nkeys=1, maxops=2, maxcrash=2, feat=("power", "crashrec"))
+    run_model(rep, pdb_cfg(**kw2), "MC_C12(hr,power loss x2 incl. during recovery)", timeout=3400)
+    run_model(rep, pdb_cfg(**dict(kw2, mut=("replay_unsynced",))), "MC_C12_noguard_replay_unsynced", expect=True)
+    # ... and on the implementation: process crash with an unsynced record in the log file, recovery, power loss
+    # right after the record was enacted (the recovery's own syncs are observed), second recovery
+    p = vcore.pdbh("powerloss-in-recovery", {})
+    line = [l for l in p.stdout.splitlines() if l.startswith("{")]
+    if not line:
+        raise ToolError("powerloss-in-recovery printed no result")
+    r = json.loads(line[-1])
+    if not r.get("image_taken"):
+        raise ToolError("powerloss-in-recovery: no image was taken during the recovery (hook missing?)")
+    rep.behaviours += 1
+    rep.evaluations += 1
+    rep.nontrivial.add("powerloss-in-recovery")
+    for v in r["violations"]:
+        rep.violation("scenario power loss during recovery: %s" % v, {"kind": "powerloss-in-recovery"})
+    log("[scenario] power loss during recovery: %d violations" % len(r["violations"]))
     colsets = [
         [{"kind": "hash"}, {"kind": "rc"}],
         [{"kind": "btree"}, {"kind": "hash", "uniform": True}],
